@@ -96,3 +96,58 @@ def rt_event(case):
         if not ev["obs"]:
             ev["obs"] = case["val"]
     return ev
+
+
+def size_boundary_cases(schema, bounds=(127,), span=(-8, 3)):
+    """length-delimited payloads whose own length, or whose container's length, crosses a varint size boundary
+    (2**7k - 1): strings / bytes alone, as oneof / optional / wrapper / repeated / map members, inside nested messages
+    (so that the *outer* payload crosses the boundary a few bytes later), packed buffers, and far field numbers (2/3-byte keys)"""
+    def S(n):
+        return {"k": "str", "cp": [120] * n}
+
+    def B(n):
+        return {"k": "bytes", "b": [7] * n}
+
+    def I(v):
+        return {"k": "int", "neg": v < 0, "mag": [d for d in _mag(abs(v))]}
+
+    def _mag(n):
+        while n:
+            yield n & 127
+            n >>= 7
+    out = []
+
+    def add(ty, tag_, **kv):
+        val = gen.fresh(schema, ty)
+        val.update(kv)
+        out.append({"ty": ty, "val": val, "tag": "size:" + tag_})
+    for bnd in bounds:
+        for n in range(max(0, bnd + span[0]), bnd + span[1]):
+            inner = {"k": "msg", "m": {"x": I(0), "s": S(n)}}
+            inner2 = {"k": "msg", "m": {"x": I(-5), "s": S(n)}}
+            add("TImpl", "i_string", i_string=S(n))
+            add("TImpl", "i_bytes", i_bytes=B(n))
+            add("TOpt", "o_string", o_string=S(n))
+            add("TOpt", "o_msg", o_msg=inner)
+            add("TOne", "g_bytes", g_bytes=B(n))
+            add("TOne", "h_c", h_c=inner2)
+            add("TRep", "r_string", r_string={"k": "list", "xs": [S(n), S(0)]})
+            add("TRep", "r_msg", r_msg={"k": "list", "xs": [inner, inner2]})
+            add("TRep", "r_bool", r_bool={"k": "list", "xs": [{"k": "bool", "v": i % 3 == 0} for i in range(n)]})
+            add("TRep", "r_int32", r_int32={"k": "list", "xs": [I(1)] * (n - 1) + [I(300)]})
+            add("TRep", "r_fixed32", r_fixed32={"k": "list", "xs": [I(i) for i in range((n + 3) // 4)]})
+            add("TRep", "r_double", r_double={"k": "list", "xs": [{"k": "f64", "b": [0, 0, 0, 0, 0, 0, 240, 63]}] * ((n + 7) // 8)})
+            add("TMapV", "mv_string", mv_string={"k": "map", "es": [[S(1), S(n)]]})
+            add("TMapV", "mv_bytes", mv_bytes={"k": "map", "es": [[S(0), B(n)]]})
+            add("TMapV", "mv_msg", mv_msg={"k": "map", "es": [[S(2), inner]]})
+            add("TMapK", "mk_string", mk_string={"k": "map", "es": [[S(n), I(0)]]})
+            add("TWkt", "w_string", w_string={"k": "wrapv", "v": S(n)})
+            add("TWkt", "w_bytes", w_bytes={"k": "wrapv", "v": B(n)})
+            add("TWkt", "mid", mid=S(n))
+            add("TWkt", "m", m=inner2)
+            add("TMix", "c+b", c=inner, b=S(n))
+            add("TMix", "k", k={"k": "list", "xs": [inner2]})
+            add("TMix", "h", h={"k": "map", "es": [[S(n), inner2]]})
+            add("Peer", "node.child", node={"k": "msg", "m": dict(gen.fresh(schema, "Node"), child={"k": "msg", "m": dict(gen.fresh(schema, "Node"), peer={"k": "msg", "m": {"node": {"k": "unset"}, "tag": S(n)}})})}, tag=S(0))
+            add("TNames", "value", value=B(n))
+    return out
